@@ -2,7 +2,7 @@
 // C20 layout reproducibility).
 //   h_layout run <cases.txt> <out.json> [chunk]
 // One case per line (integers):
-//   n  (w h x y)*n   m (u v)*m   flags   ncons cons...   ngroups (k ids..)*   nclusters (pad margin k nodes..)*
+//   n  (w h x y)*n   m (u v)*m   flags   ncons cons...   ngroups (k ids..)*   nclusters (pad margin parent k nodes..)*   (parent: -1 = root, else index of an earlier cluster)
 //   flags: bit0 avoid overlaps, bit1 makeFeasible before run, bit2 use ConstrainedMajorizationLayout,
 //          bit3 neighbour stress, bit4 run twice with heap churn in between (C20)
 //   cons:  1 dim l r gap eq | 2 dim k (i off)*k fixed pos | 3 dim k (i off)*k | 4 dim min eq np (a1 a2)*np
@@ -25,7 +25,7 @@ struct Con { int kind, dim; std::vector<int> a; };
 struct Case {
     int n; std::vector<int> w, h, x, y; std::vector<std::pair<int, int> > es; int flags;
     std::vector<Con> cons; std::vector<std::vector<int> > groups;
-    struct Cl { int pad, margin; std::vector<int> nodes; }; std::vector<Cl> clusters;
+    struct Cl { int pad, margin, parent; std::vector<int> nodes; }; std::vector<Cl> clusters;
 };
 
 static bool readCase(std::istream &in, Case &c)
@@ -50,7 +50,7 @@ static bool readCase(std::istream &in, Case &c)
     int ng; in >> ng; c.groups.assign(ng, {});
     for (auto &g : c.groups) { int k; in >> k; g.resize(k); for (int &v : g) in >> v; }
     int ncl; in >> ncl; c.clusters.assign(ncl, {});
-    for (auto &cl : c.clusters) { int k; in >> cl.pad >> cl.margin >> k; cl.nodes.resize(k); for (int &v : cl.nodes) in >> v; }
+    for (auto &cl : c.clusters) { int k; in >> cl.pad >> cl.margin >> cl.parent >> k; cl.nodes.resize(k); for (int &v : cl.nodes) in >> v; }
     return true;
 }
 
@@ -114,11 +114,13 @@ static RunResult runLayout(const Case &c)
             }
             if (!c.clusters.empty()) {
                 root = new RootCluster();
+                std::vector<RectangularCluster *> made;
                 for (auto &cl : c.clusters) {
                     RectangularCluster *rc = new RectangularCluster();
                     rc->setPadding(cl.pad); rc->setMargin(cl.margin);
                     for (int v : cl.nodes) rc->addChildNode(v);
-                    root->addChildCluster(rc);
+                    if (cl.parent >= 0 && cl.parent < (int)made.size()) made[cl.parent]->addChildCluster(rc); else root->addChildCluster(rc);
+                    made.push_back(rc);
                 }
                 alg.setClusterHierarchy(root);
             }
@@ -161,7 +163,7 @@ int main(int argc, char **argv)
         for (auto &k : c.cons) { j.obj().k("kind").i(k.kind).k("dim").i(k.dim).k("a").ints(k.a).end(); }
         j.end();
         j.k("groups").arr(); for (auto &g : c.groups) { j.arr(); for (int v : g) j.i(v + 1); j.end(); } j.end();
-        j.k("clusters").arr(); for (auto &cl : c.clusters) { j.obj().k("pad").i(cl.pad).k("margin").i(cl.margin).k("nodes").arr(); for (int v : cl.nodes) j.i(v + 1); j.end().end(); } j.end();
+        j.k("clusters").arr(); for (auto &cl : c.clusters) { j.obj().k("pad").i(cl.pad).k("margin").i(cl.margin).k("parent").i(cl.parent + 1).k("nodes").arr(); for (int v : cl.nodes) j.i(v + 1); j.end().end(); } j.end();
         j.k("thrown").b(R.thrown); if (R.thrown) j.k("what").s(R.what);
         j.k("reported").arr(); for (int r : R.reported) j.i(r + 1); j.end();       // 1-based; 0 = a constraint not supplied by the user
         j.k("pos").arr(); for (int i = 0; i < c.n; i++) j.arr().i(lat(R.cx[i])).i(lat(R.cy[i])).end(); j.end();
